@@ -23,6 +23,7 @@ def parseEvent (s : String) : Event :=
   | some "d", some m, _ => .drop m
   | some "u", some m, _ => .dup m
   | some "se", some l, some q => .streamErr l q
+  | some "sc", some l, some q => .streamClosed l q
   | some "lf", some n, _ => .logFlushed n
   | some "ac", some n, some i => .applyCompleted n i
   | some "x", some n, some k => .crash n k
@@ -79,17 +80,19 @@ def showMsg (id : Nat) : Msg → String
     s!"R{id}.{src}.{dst}.{term}.{k}"
 
 /-- state after an event; `fromMsg` = `nextMsg` before the event (messages created by it and still in the bag) -/
-def showState (c : Cluster) (fromMsg : Nat) : String :=
+def showState (c : Cluster) (fromMsg fromAck : Nat) : String :=
   let nodes := "/".intercalate (((List.range (c.n + 1)).filter (· != 0)).map fun i => showNode (c.nodes i))
   let newMsgs := c.msgs.filter (fun x => x.1 ≥ fromMsg)
-  if newMsgs.isEmpty then nodes else nodes ++ "~" ++ "+".intercalate (newMsgs.map fun x => showMsg x.1 x.2)
+  let s := if newMsgs.isEmpty then nodes else nodes ++ "~" ++ "+".intercalate (newMsgs.map fun x => showMsg x.1 x.2)
+  let newAcks := c.acked.drop fromAck
+  if newAcks.isEmpty then s else s ++ "!" ++ "+".intercalate (newAcks.map fun a => showPayload a.1.payload)
 
 /-- all states + branch tags of a schedule -/
 def runTrace (c : Cluster) : List Event → List String → List String → Cluster × List String × List String
   | [], states, tags => (c, states.reverse, tags)
   | e :: es, states, tags =>
     let (c', t) := step c e
-    runTrace c' es (showState c' c.nextMsg :: states) (t ++ tags)
+    runTrace c' es (showState c' c.nextMsg c.acked.length :: states) (t ++ tags)
 
 def dedup (l : List String) : List String := l.foldl (fun acc x => if acc.contains x then acc else acc ++ [x]) []
 
@@ -133,7 +136,7 @@ def parseObsNode (s : String) : Option ObsNode :=
   | _ => none
 
 def parseObsState (s : String) : Option (List ObsNode) :=
-  match s.splitOn "~" with
+  match ((s.splitOn "!").headD "").splitOn "~" with
   | nodes :: _ => (nodes.splitOn "/").mapM parseObsNode
   | [] => none
 
@@ -179,5 +182,172 @@ def monitorC04 (_case out : String) : String :=
     if states.all fun st => pairwise ((st.filter (·.visible)).map (·.log)) then "ok"
     else if hasDupTerm (leaderships states []) then "bad two-leaderships-one-term"
     else "bad log-mismatch"
+
+-- ------------------------------------------------------------------------------------------ C05 monitor
+/-- (id, prevI, prevT) of every AppendEntries request printed in the trace -/
+def parseAeMsgs (out : String) : List (Nat × Nat × Nat) :=
+  (out.splitOn "|").flatMap fun st =>
+    match ((st.splitOn "!").headD "").splitOn "~" with
+    | [_, ms] => (ms.splitOn "+").filterMap fun m =>
+        if m.startsWith "A" then
+          match (m.drop 1).toString.splitOn "." with
+          | id :: _ :: _ :: _ :: pi :: pt :: _ => do pure (← id.toNat?, ← pi.toNat?, ← pt.toNat?)
+          | _ => none
+        else none
+    | _ => []
+
+structure C05State where
+  lastVis : List (Option Log)          -- per node: last visible log
+  crashed : List Bool                  -- per node: crashed (no Drop) since it was last visible
+  committed : List (Entry × Nat)       -- entry, term of the leader whose commit index covered it
+  lostReset : List Entry               -- entries some node dropped when it executed a prev=(0,0) request
+  lostCrash : List Entry               -- entries some node no longer had after a crash
+  prev : List ObsNode
+  lships : List (Nat × Nat)
+
+def setAt {α} (l : List α) (i : Nat) (x : α) : List α := l.set i x
+
+def isResetDelivery (ev : String) (aes : List (Nat × Nat × Nat)) : Bool :=
+  match ev.splitOn ":" with
+  | ["a", m] => match m.toNat? with
+    | some id => aes.any fun x => x.1 == id && x.2.1 == 0 && x.2.2 == 0
+    | none => false
+  | _ => false
+
+def crashTarget (ev : String) : Option Nat :=
+  match ev.splitOn ":" with
+  | ["x", n, _] => n.toNat?
+  | _ => none
+
+/-- one event of the implementation's trace; returns the new monitor state or the signature of the violation -/
+def c05Step (s : C05State) (ev : String) (st : List ObsNode) (aes : List (Nat × Nat × Nat))
+    (acks : Option (List Nat)) : Except String C05State := do
+  let reset := isResetDelivery ev aes
+  -- what every visible node lost since it was last visible
+  let mut lostReset := s.lostReset
+  let mut lostCrash := s.lostCrash
+  let mut direct : Option String := none
+  let mut lastVis := s.lastVis
+  let mut crashed := s.crashed
+  for (nd, i) in st.zipIdx do
+    if nd.visible then
+      match (s.lastVis[i]?).join with
+      | some old =>
+        let gone := old.filter fun e => !nd.log.contains e
+        if !gone.isEmpty then
+          if (s.crashed[i]?).getD false then lostCrash := lostCrash ++ gone
+          else if reset then lostReset := lostReset ++ gone
+          if direct.isNone && gone.any (fun e => s.committed.any fun c => c.1 == e) then
+            direct := some (if (s.crashed[i]?).getD false then "lost-in-crash"
+                            else if reset then "wiped-by-reset" else "discarded-committed")
+      | none => pure ()
+      lastVis := setAt lastVis i (some nd.log)
+      crashed := setAt crashed i false
+  match crashTarget ev with
+  | some n => crashed := setAt crashed (n - 1) true
+  | none => pure ()
+  -- leader completeness
+  let mut missing : Option Entry := none
+  for nd in st do
+    if nd.visible && nd.role == "L" then
+      for c in s.committed do
+        if c.2 < nd.term && !nd.log.contains c.1 && missing.isNone then missing := some c.1
+  let lships := s.lships ++ leaderships [st] s.prev
+  let rootCause (e : Option Entry) : Option String :=
+    if hasDupTerm lships then some "two-leaderships-one-term"
+    else match e with
+      | some e => if lostReset.contains e then some "wiped-by-reset"
+                  else if lostCrash.contains e then some "lost-in-crash" else none
+      | none => none
+  match direct with
+  | some d =>
+    let lostNow := (st.zipIdx).flatMap fun (nd, i) =>
+      if nd.visible then match (s.lastVis[i]?).join with
+        | some old => old.filter fun e => !nd.log.contains e && s.committed.any fun c => c.1 == e
+        | none => []
+      else []
+    throw ((rootCause lostNow.head?).getD d)
+  | none => pure ()
+  match missing with
+  | some e => throw ((rootCause (some e)).getD "leader-missing-committed")
+  | none => pure ()
+  -- new commits (C05: whatever a leader's commit index covers; C10: the writes answered with success in this event)
+  let mut committed := s.committed
+  for nd in st do
+    if nd.visible && nd.role == "L" then
+      for e in nd.log do
+        let covered := match acks with
+          | none => e.index ≤ nd.commit
+          | some tags => e.index ≤ nd.commit && e.term == nd.term && e.payload != 0 && tags.contains (e.payload - 1)
+        if covered && !(committed.any fun c => c.1 == e) then committed := committed ++ [(e, nd.term)]
+  -- C10: an answered write must be covered by the answering leader's commit index
+  match acks with
+  | some tags =>
+    if !(tags.all fun t => committed.any fun c => c.1.payload == t + 1) then throw "acked-but-not-committed"
+  | none => pure ()
+  pure { lastVis := lastVis, crashed := crashed, committed := committed, lostReset := lostReset, lostCrash := lostCrash,
+         prev := st, lships := lships }
+
+/-- tags of the writes answered with success in one state string -/
+def parseAcks (st : String) : List Nat :=
+  match st.splitOn "!" with
+  | [_, a] => (a.splitOn "+").filterMap String.toNat?
+  | _ => []
+
+def c05Run (s : C05State) : List String → List (List ObsNode) → List (Nat × Nat × Nat) → Option (List (List Nat)) →
+    Except String C05State
+  | ev :: evs, st :: sts, aes, acks => do
+    let s' ← c05Step s ev st aes (acks.map fun a => a.headD [])
+    c05Run s' evs sts aes (acks.map fun a => a.drop 1)
+  | _, _, _, _ => pure s
+
+/-- C05 on the implementation's trace: committed entries (covered by a leader's commit index) are never discarded by
+    a node that held them, and every later-term leader holds them.  `skip` when nothing was ever committed. -/
+def monitorC05 (case out : String) : String :=
+  match parseImplTrace out, case.splitOn "|" with
+  | some states, [_, evs] =>
+    let n := (states.head?.map List.length).getD 0
+    let init : C05State := { lastVis := List.replicate n (some []), crashed := List.replicate n false, committed := [],
+                             lostReset := [], lostCrash := [], prev := [], lships := [] }
+    match c05Run init ((evs.splitOn ";").filter (fun s => !s.isEmpty)) states (parseAeMsgs out) none with
+    | .ok s => if s.committed.isEmpty then "skip" else "ok"
+    | .error sig => "bad " ++ sig
+  | none, _ => "bad unparsable-trace"
+  | _, _ => "skip"
+
+/-- C10 on the implementation's trace: a write answered with success is covered by the answering leader's commit
+    index, is never discarded by a node that holds it, and is held by every later-term leader; a graceful stop + start
+    gives back the same log.  `skip` when no write was answered. -/
+def monitorC10 (case out : String) : String :=
+  match parseImplTrace out, case.splitOn "|" with
+  | some states, [_, evs] =>
+    let n := (states.head?.map List.length).getD 0
+    let evl := (evs.splitOn ";").filter (fun s => !s.isEmpty)
+    -- graceful restart keeps the log: compare the state before `g:N` with the state after the next `up:N`
+    let graceful := (evl.zipIdx).all fun (ev, k) =>
+      match ev.splitOn ":" with
+      | ["g", nn] => match nn.toNat? with
+        | some nid =>
+          let before := if k == 0 then some [] else ((states[k - 1]?).bind fun st => st[nid - 1]?).bind fun nd => if nd.visible then some nd.log else none
+          let crashedLater := ((evl.drop (k + 1)).takeWhile fun e => e != s!"up:{nid}").any fun e => e.startsWith s!"x:{nid}:"
+          let upIdx := ((evl.drop (k + 1)).findIdx? fun e => e == s!"up:{nid}").map (· + k + 1)
+          match before, upIdx, ((states[k]?).bind fun st => st[nid - 1]?) with
+          | some lg, some u, some ndg =>
+            if ndg.up || crashedLater then true
+            else match (states[u]?).bind fun st => st[nid - 1]? with
+              | some nd => !nd.visible || nd.log == lg
+              | none => true
+          | _, _, _ => true
+        | none => true
+      | _ => true
+    if !graceful then "bad graceful-restart-lost-entries"
+    else
+      let init : C05State := { lastVis := List.replicate n (some []), crashed := List.replicate n false, committed := [],
+                               lostReset := [], lostCrash := [], prev := [], lships := [] }
+      match c05Run init evl states (parseAeMsgs out) (some ((out.splitOn "|").map parseAcks)) with
+      | .ok s => if s.committed.isEmpty then "skip" else "ok"
+      | .error sig => "bad " ++ sig
+  | none, _ => "bad unparsable-trace"
+  | _, _ => "skip"
 
 end DEngine.Cluster
